@@ -891,7 +891,9 @@ class LDAPServer(LDAPSession):
             ),
         )
         msg_id = self._send(msg)
-        self._search_requests.remove(msg_id)
+        # The request may not have been a search, the server is still allowed
+        # to answer it.
+        self._search_requests.discard(msg_id)
         return msg_id
 
     def receive(
